@@ -392,7 +392,9 @@ static void absorb(BatchStats &st, const RunResult &r) {
 
 static void run_batch(const BatchCfg &b, const std::vector<Plan> &fixed, BatchStats &st, std::vector<Candidate> &cands) {
     std::vector<WorkerState> ws((size_t) b.workers);
-    for (int i = 0; i < b.workers; i++) { ws[(size_t) i].id = i; spawn_worker(ws[(size_t) i], b, fixed, (uint64_t) i); }
+    // development aid (seed sweeps of the seeded part only): VSIM_SKIP_FIXED=1 starts behind the fixed plans
+    uint64_t first_index = getenv("VSIM_SKIP_FIXED") ? (uint64_t) fixed.size() : 0;
+    for (int i = 0; i < b.workers; i++) { ws[(size_t) i].id = i; spawn_worker(ws[(size_t) i], b, fixed, first_index + (uint64_t) i); }
     std::map<uint64_t, RunResult> pending_viol;
     int live = b.workers;
     while (live > 0) {
